@@ -1,3 +1,4 @@
+import RlboxModel.Lifecycle
 import RlboxModel.Invoke
 import Driver.Util
 import Driver.PtrEng
@@ -78,6 +79,18 @@ def step (t : List String) : Option String :=
       let l := libOfSb sb
       let r := if name == "scale" then (if l = 0 then 2 * v else 3 * v) else (if l = 0 then v + 1000 else v + 2000)
       pure s!"ok {r}"
+  | ["irecr", l1, l2, name, v] => do
+      -- one sandbox object, two incarnations (Lifecycle.World): create lib l1, look the symbol up, destroy, create lib l2, look it up
+      let l1 ← l1.toNat?; let l2 ← l2.toNat?; let v ← parseInt? v
+      let val (l : Nat) : Int := if name == "scale" then (if l = 0 then 2 * v else 3 * v) else (if l = 0 then v + 1000 else v + 2000)
+      let show1 (l : Nat) := s!"{val l} {if l = 0 then "libA" else "libB"}.{name} {val l}"
+      let w0 := World.init 8
+      let (w1, _) ← w0.create 0 true l1
+      let (w1', la) := w1.lookup 0 name
+      let w2 ← w1'.destroy 0
+      let (w3, _) ← w2.create 0 true l2
+      let (_, lb) := w3.lookup 0 name
+      pure s!"ok {show1 la} | {show1 lb}"
   | ["ifnaddr", sb, name] => do
       let sb ← sb.toNat?
       let l := libOfSb sb
